@@ -1,4 +1,7 @@
 // C19 — value semantics / every byte returned: Theta family (update / compact sketch, union, intersection, a-not-b)
+#ifndef C19_PART
+#define C19_PART 0
+#endif
 #include "vf/c19_thetalike.hpp"
 #include <theta_sketch.hpp>
 #include <theta_union.hpp>
@@ -9,7 +12,7 @@ using namespace datasketches;
 namespace vf {
 const char* property_id() { return "C19"; }
 unsigned case_timeout_s() { return 120; }
-uint64_t num_cases(bool thorough) { return thorough ? 15000 : 800; }
+uint64_t num_cases(bool thorough) { return (C19_PART == 0 ? 2 : 3) * (thorough ? 3000 : 160); }
 void final_report() {}
 
 struct ThetaTT {
@@ -53,13 +56,16 @@ struct ThetaTT {
   static void make_anotb(void* mem, const TCfg& c, Arena* a) { new (mem) ANotB(c.seed, A(a)); }
 };
 
+// the unit is compiled twice (registry flag -DC19_PART=0 / 1) to keep each compile short
 void run_case(uint64_t idx, Rng& r) {
-  switch (idx % 5) {
-    case 0: run_program<TLUpdateFam<ThetaTT>>(r); break;
-    case 1: run_program<TLCompactFam<ThetaTT>>(r); break;
-    case 2: run_program<TLUnionFam<ThetaTT>>(r); break;
-    case 3: run_program<TLIntersectionFam<ThetaTT>>(r); break;
+#if C19_PART == 0
+  if (idx % 2 == 0) run_program<TLUpdateFam<ThetaTT>>(r); else run_program<TLCompactFam<ThetaTT>>(r);
+#else
+  switch (idx % 3) {
+    case 0: run_program<TLUnionFam<ThetaTT>>(r); break;
+    case 1: run_program<TLIntersectionFam<ThetaTT>>(r); break;
     default: run_program<TLANotBFam<ThetaTT>>(r); break;
   }
+#endif
 }
 } // namespace vf
